@@ -35,6 +35,8 @@ THEOREMS = [
     "HedVerif.C10.warning_rows_participate",
     "HedVerif.C10.no_error_all_participate",
     "HedVerif.C10.error_rows_skipped",
+    "HedVerif.C10.delay_uses_own_onset",
+    "HedVerif.C10.file_errors_permutation_invariant",
 ]
 BUDGET = {"quick": 900, "thorough": 3600}
 
@@ -306,6 +308,14 @@ def check_history(ctx, history, model_errors, schema, dd):
 def check_file(ctx, rows, model, schema, dd):
     nm = sum(len(r["markers"]) + len(r["delayed"]) for r in rows)
     ctx.case(("f", json.dumps(rows)), nontrivial=nm >= 2, sample={"rows": rows} if nm >= 4 and len(rows) <= 4 else None)
+    times = [r["time"] for r in rows]
+    if times != sorted(times):
+        ctx.count("file-out-of-time-order" + ("-with-delay" if any(r["delayed"] for r in rows) else ""))
+        # would position-based onsets (row label read as a position of the sorted file) change the verdicts?
+        order = sorted(range(len(rows)), key=lambda k: (times[k], k))
+        wrong = [dict(r, delayed=[[d + times[order[k]] - r["time"], ms] for d, ms in r["delayed"]]) for k, r in enumerate(rows)]
+        if sorted(k for _, k in ref_file(wrong)) != sorted(k for _, k in ref_file(rows)):
+            ctx.count("file-verdicts-depend-on-delay-using-own-onset")
     ctx.count("file-timepoints-merged" if len(model["timepoints"]) < len(rows) + sum(len(r["delayed"]) for r in rows)
               else "file-no-merge")
     sevs = [row_sevs(r) for r in rows]
@@ -506,7 +516,8 @@ def run(ctx):
     ctx.extra["rule"] = ("histories over {Onset,Offset,Inset} x {A,a,B,C/1,C/2,c/1}: exhaustive for short ones, random longer; "
                          "event frames with equal-onset rows and Delay shifts on a 1/8 s grid, rows decorated with warning-only cell issues "
                          "(extended tag beside/inside the temporal group, unitless Delay, lower-case tag: kept) or errors (unknown tag, "
-                         "unknown Def: skipped, on times of their own), each validated with and without warnings; non-trivial = at least 2 markers; "
+                         "unknown Def: skipped, on times of their own), each validated with and without warnings; the same files out of time order (all row permutations for <= 4 rows of "
+                         "files with Delay groups, one random permutation of the others); non-trivial = at least 2 markers; "
                          "temporal groups with 0-3 Def/Def-expand, 0-3 inner groups, extra tags, Delay, second anchors, unknown/valued defs "
                          "(non-trivial = the group is malformed)")
     # corpus
@@ -555,6 +566,28 @@ def run(ctx):
                       {"time": 32, "markers": [["offset", "C/1"]], "delayed": []}])
     for _ in range(nfiles):
         files.append(gen_rows(ctx.rng, ctx.rng.randint(1, 7)))
+    # files out of time order: row permutations of the ordered files (the validator sorts them first and keeps the row
+    # labels; a Delay group must still be shifted from its OWN row's onset).  All permutations for up to 4 rows of
+    # the first files that carry a Delay group, one random permutation of every other file with at least 2 rows.
+    nall = 25 if ctx.quick() else 250
+    unordered = [[{"time": 16, "markers": [], "delayed": [[8, [["inset", "A"]]]]},
+                  {"time": 8, "markers": [["onset", "a"]], "delayed": []},
+                  {"time": 32, "markers": [["offset", "A"]], "delayed": []}],
+                 [{"time": 40, "markers": [["inset", "B"]], "delayed": []},
+                  {"time": 24, "markers": [], "delayed": [[4, [["offset", "B"]]]]},
+                  {"time": 8, "markers": [["onset", "B"]], "delayed": []}]]
+    for f in files:
+        if len(f) < 2 or order_sensitive(f):      # equal-time rows using one name: tie order is pandas' business
+            continue
+        if nall > 0 and len(f) <= 4 and any(r["delayed"] for r in f):
+            nall -= 1
+            unordered += [list(p) for p in itertools.permutations(f)][1:]
+        else:
+            g = list(f)
+            ctx.rng.shuffle(g)
+            unordered.append(g)
+    ctx.extra["unordered_files"] = len(unordered)
+    files += unordered
     ans = ctx.model.batch([file_request(f) for f in files])
     for f, a in zip(files, ans):
         check_file(ctx, f, a, schema, dd)
